@@ -106,3 +106,7 @@ Definition format_bytes2 (orders : nat -> list pname) (limit1 limit2 : N) (conte
   Ok (layout (scan_lines limit2 (unlines ts))).
 Definition format_bytes (orders : nat -> list pname) (limit : N) (contents : str) : outcome str :=
   format_bytes2 orders limit limit contents.
+
+(* lines other than definition / include / include-except directives (C09 idempotence, partial) *)
+Definition not_a_file_directive (line : str) : Prop :=
+  m_definition line = None /\ m_include line = None /\ m_include_except line = None.
